@@ -305,3 +305,13 @@ def c17(r):
     r.exhaustive = True
     r.extra['bounds'] = 'all sequences of <= %d statements from a pool of 27 reference-manipulating statements; clone/free orders; purge' % h
     r.conform(scs, workers=16)
+
+
+@prop('C12')
+def c12(r):
+    r.assumptions += ['the unparse functions (Executable::unparse) produce the text; the interactive save command writes the same text (covered by C19 scenarios)',
+                      'relations are non-associative in the grammar (chaining is a syntax error): generated texts parenthesise them']
+    scs = r.gen('Gen_C12', 'Gen_C12.cfg', timeout=3000)
+    r.exhaustive = True
+    r.extra['bounds'] = 'all ordered operator pairs (parent, child, side) of 6 arithmetic, 6 relational, 3 logical operators + unary shapes with minimal parentheses; 150 statement-level programs; 55 literal/statement forms (relation only)'
+    r.conform(scs, workers=8)
